@@ -162,17 +162,23 @@ def finishRight (t newCells : List Cell) : Except Err (List Cell) := do
     fixPrevEvaluationDate t (← Triangle.toIncremental right)
   else pure right
 
-/-- `make_right_triangle(triangle, dev_lags, dev_lag_unit)`. An unrecognised unit raises
-`ValueError` at the first `cell.dev_lag(unit)` — i.e. whenever at least one lag/cell pair is looked at. -/
+/-- the new cells of `make_right_triangle` on the cumulative triangle `cum`, before `Triangle(...)`.
+An unrecognised unit raises `ValueError` at the first `cell.dev_lag(unit)` — i.e. whenever at least
+one lag/cell pair is looked at. -/
+def rightTriangleCells (cum : List Cell) (lags : Option (List Rat)) (unit : String) :
+    Except Err (List Cell) :=
+  match LagUnit.parse? unit with
+  | none => if cum.isEmpty || lags == some [] then pure [] else throw .valueError
+  | some u => do
+    let new ← (Triangle.slices cum).mapM fun p => rightTriangleSlice lags u p.2
+    pure new.flatten
+
+/-- `make_right_triangle(triangle, dev_lags, dev_lag_unit)` -/
 def makeRightTriangle (t : List Cell) (lags : Option (List Rat)) (unit : String) :
     Except Err (List Cell) := do
   let cum ← if Triangle.isIncremental t then Triangle.toCumulative t else pure t
-  match LagUnit.parse? unit with
-  | none =>
-    if cum.isEmpty || lags == some [] then finishRight t [] else throw .valueError
-  | some u =>
-    let new ← (Triangle.slices cum).mapM fun (_, slc) => rightTriangleSlice lags u slc
-    finishRight t new.flatten
+  let new ← rightTriangleCells cum lags unit
+  finishRight t new
 
 /-! ## `make_right_diagonal` -/
 
@@ -190,12 +196,17 @@ def rightDiagonalSlice (dates : List Date) (hist : Bool) (slice : List Cell) :
   let edge ← Triangle.rightEdge slice
   (diagPairs dates' edge).mapM fun p => (emptyCell p.1 p.2).mk?
 
+/-- the new cells of `make_right_diagonal` on the cumulative triangle `cum` -/
+def rightDiagonalCells (cum : List Cell) (dates : List Date) (hist : Bool) : Except Err (List Cell) := do
+  let new ← (Triangle.slices cum).mapM fun p => rightDiagonalSlice dates hist p.2
+  pure new.flatten
+
 /-- `make_right_diagonal(triangle, evaluation_dates, include_historic)` -/
 def makeRightDiagonal (t : List Cell) (dates : List Date) (hist : Bool) :
     Except Err (List Cell) := do
   let cum ← if Triangle.isIncremental t then Triangle.toCumulative t else pure t
-  let new ← (Triangle.slices cum).mapM fun (_, slc) => rightDiagonalSlice dates hist slc
-  finishRight t new.flatten
+  let new ← rightDiagonalCells cum dates hist
+  finishRight t new
 
 /-! ## `fill_forward_gaps` -/
 
